@@ -250,6 +250,9 @@ func (g *Gen) instr(in ssa.Instruction) {
 		g.mapVal(g.cur, ks, vs)
 		card := g.mapCard(g.cur)
 		g.setRawHeap(g.cur, "M_card", app("store", card, o, "0"))
+		if vs == "Slice" && !g.M.BV {
+			g.setRawHeap(g.cur, "M_vlen", app("store", g.rawHeap(g.cur, "M_vlen", "(Array Int Int)"), o, "0"))
+		}
 		g.defineVal(x, g.mkptr(o, g.M.IxLit(0)))
 	case *ssa.Lookup:
 		g.lookup(x)
@@ -429,6 +432,12 @@ func (g *Gen) convert(x *ssa.Convert) {
 		}
 	}
 	if tb != nil && tb.Info()&types.IsString != 0 {
+		if _, ok := fu.(*types.Slice); ok && !g.M.BV {
+			// string(b): a function of the byte sequence (two conversions of the same bytes give the same string)
+			g.defineVal(x, app("strOfSeq", app("seqid", g.heapTerm(g.cur, "Int"), g.val(x.X))))
+			g.assumePC(sEq(app("slen", g.valName(x)), app("sl.len", g.val(x.X))))
+			return
+		}
 		r := g.declareVal(x)
 		if st, ok := fu.(*types.Slice); ok {
 			_ = st
